@@ -296,7 +296,8 @@ func IsSuccessReturn(in ssa.Instruction) bool {
 		return false
 	}
 	last := r.Results[len(r.Results)-1]
-	return IsNilConst(last)
+	// results spilled to cells (functions with defers) are resolved to the reaching store
+	return IsNilConst(last) || IsNilConst(Strip(last))
 }
 
 // MaybeNilReturn: a Return whose last result is not syntactically a non-nil value
